@@ -387,9 +387,9 @@ func queuePart(rep *hx.Report, modelPath string, seed int64, n int) {
 	qEngine = nbhttp.NewEngine(nbhttp.Config{MaxWebsocketFramePayloadSize: qFrame})
 	m := hx.StartModel(modelPath)
 	defer m.Close()
-	defer func() { fmt.Println("queue part: slept", slept, "model round trips", asked) }()
 	r := rand.New(rand.NewSource(seed ^ 0x5eed))
-	for i := 0; i < n; i++ {
+	nbad := 0
+	for i := 0; i < n && nbad < 5; i++ {
 		cs := r.Int63()
 		qc, diff := runQueueCase(m, cs, false)
 		if diff != "" {
@@ -411,6 +411,7 @@ func queuePart(rep *hx.Report, modelPath string, seed int64, n int) {
 			rep.Stat("queue.op." + strings.Fields(o)[0])
 		}
 		if diff != "" {
+			nbad++
 			rep.Add(hx.Finding{Kind: "mismatch", Property: "C14", Signature: "sendqueue-model",
 				What:   "websocket.Conn write side vs. SendQueue.v: " + diff,
 				Replay: map[string]interface{}{"harness": "wsconc", "part": "queue", "case": qc}})
